@@ -1,0 +1,63 @@
+//! Verification hooks (compiled only with `--cfg blue_verif`).  Add-only: without a registered
+//! hook every call below is one relaxed load and a branch; nothing changes behaviour.
+//!
+//! A registered hook is called around every atomic operation on the list head and on a node's
+//! successor pointer (`phase` 0 immediately before, 1 immediately after, with the address of the
+//! pointer cell so that the hook can read the cell's value while it holds whatever exclusion it
+//! implements), and once (`phase` 2) at node allocation, node release and every dereference of a
+//! node pointer.
+
+use std::sync::atomic::{AtomicUsize, Ordering};
+
+pub const GET: usize = 0;
+pub const SET: usize = 1;
+pub const HEAD_GET: usize = 2;
+pub const HEAD_CAS: usize = 3;
+pub const ALLOC: usize = 4;
+pub const FREE: usize = 5;
+pub const DEREF: usize = 6;
+
+/// `hook(phase, kind, node, cell)`; for HEAD_CAS `node` is the node being published.
+pub type Hook = fn(usize, usize, usize, usize);
+
+static HOOK: AtomicUsize = AtomicUsize::new(0);
+
+pub fn set_hook(hook: Option<Hook>) {
+    HOOK.store(hook.map(|f| f as usize).unwrap_or(0), Ordering::SeqCst);
+}
+
+#[inline]
+fn call(phase: usize, kind: usize, node: usize, cell: usize) {
+    let h = HOOK.load(Ordering::Relaxed);
+    if h != 0 {
+        let f: Hook = unsafe { std::mem::transmute::<usize, Hook>(h) };
+        f(phase, kind, node, cell);
+    }
+}
+
+#[inline]
+pub(crate) fn point(kind: usize, node: usize) {
+    call(2, kind, node, 0);
+}
+
+/// Brackets one atomic operation: phase 0 on creation, phase 1 when it goes out of scope.
+pub(crate) struct Guard {
+    kind: usize,
+    node: usize,
+    cell: usize,
+}
+
+impl Guard {
+    #[inline]
+    pub(crate) fn new(kind: usize, node: usize, cell: usize) -> Self {
+        call(0, kind, node, cell);
+        Self { kind, node, cell }
+    }
+}
+
+impl Drop for Guard {
+    #[inline]
+    fn drop(&mut self) {
+        call(1, self.kind, self.node, self.cell);
+    }
+}
